@@ -24,13 +24,13 @@ V3 = (0.0, 1.0, 2.0)
 _alg = {}
 
 
-def algorithm(name, bounds, N=3):
-    key = (name, tuple(map(tuple, bounds)), N)
+def algorithm(name, bounds, N=3, ncosts=2):
+    key = (name, tuple(map(tuple, bounds)), N, ncosts)
     if key not in _alg:
         from .c_support import make_problem
         from artap import algorithm_swarm as sw
         shim_mod.install()
-        problem = make_problem(n_params=len(bounds), bounds=bounds, criteria=["minimize", "minimize"])
+        problem = make_problem(n_params=len(bounds), bounds=bounds, criteria=["minimize"] * ncosts)
         cls = {"base": sw.SwarmAlgorithm, "OMOPSO": sw.OMOPSO, "SMPSO": sw.SMPSO, "PSOGA": sw.PSOGA}[name]
         a = cls(problem)
         a.options['max_population_size'] = N
@@ -40,7 +40,7 @@ def algorithm(name, bounds, N=3):
 
 def check_pbest(name, new, best):
     from artap.individual import Individual
-    a = algorithm(name, [[0.0, 1.0]])
+    a = algorithm(name, [[0.0, 1.0]], ncosts=len(new) - 1)      # a problem with as many objectives as the cost vectors have
     p = Individual([0.25])
     p.costs_signed = list(new)
     old_vec = [0.75]
